@@ -471,6 +471,8 @@ class CallMixin:
         if name == "slice":
             return isinstance(v, slice)
         if name == "EllipsisType":
+            if isinstance(v, UVal) and v.cls is None:          # value of unknown class: may be the `...` wildcard
+                return SBool(v.t == self.to_u(Ellipsis), True)
             return v is Ellipsis
         if name in ("Callable", "callable"):
             return isinstance(v, (FuncVal, BoundMethod, NativeFn, ClassRef, ExtRef, Builtin)) or \
